@@ -141,7 +141,7 @@ impl DnsCache {
             .filter_map(|(instance, srv_list)| {
                 if let Some(item) = srv_list.first() {
                     if let Some(dns_srv) = item.record.any().downcast_ref::<DnsSrv>() {
-                        if dns_srv.host() == host {
+                        if dns_srv.host().to_lowercase() == host.to_lowercase() {
                             return Some(instance.clone());
                         }
                     }
@@ -206,7 +206,7 @@ impl DnsCache {
             query_vec.push((srv_record.host().to_string(), RRType::AAAA));
 
             if let Some(new_expire) = expire_at {
-                if let Some(addrs) = self.addr.get_mut(srv_record.host()) {
+                if let Some(addrs) = self.addr.get_mut(&srv_record.host().to_lowercase()) {
                     for addr in addrs {
                         addr.record.set_expire_sooner(new_expire);
                     }
